@@ -242,6 +242,27 @@ CHECKS["C18"] = dict(
 
 NOT_YET = {}
 
+# additions that apply to several properties (DESIGN.md 0.8, 0.9)
+TIE = {
+    "C01": "lrtr_get_bits, lrtr_ipv4/ipv6_get_bits, lrtr_ip_addr_is_zero/get_bits/equal and trie.c is_left_child",
+    "C04": "rtr_get_pdu_type, rtr_pdu_check_size and the in-place header conversion (incl. rtr_pdu_check_size_safe / _mem_indep: for every content, every "
+           "nested length of an Error Report, the size check reads only inside the received PDU - the memory-safety clause for this function is a theorem, not an observation)",
+    "C10": "tommy_inthash_u32, key_entry_cmp (0 exactly when AS, SKI, SPKI and source agree) and the two record copy helpers",
+    "C14": "lrtr_convert_short/long and rtr_pdu_convert_header_byte_order",
+    "C17": "rtr_check_interval_range, apply_interval_value, rtr_check_interval_option (with the frame condition on struct rtr_socket), rtr_get/set_interval_mode",
+}
+GATE = ("C01", "C02", "C03", "C09", "C10")
+for _pid, _fns in TIE.items():
+    CHECKS[_pid]["text"] += (" Translation tie: the C text of " + _fns + " is translated from clang's typed AST into Lean on every run "
+                             "(tools/gen_cfuns.py -> Generated/CFuns.lean; undefined behaviour = no result) and proved equal to the model for ALL inputs "
+                             "(RtrProofs/CLink*.lean); when a link breaks, the translated text and the model are evaluated side by side to give the failing input.")
+    CHECKS[_pid]["technique"] += " + C-to-Lean translation of the loop-free functions regenerated per run with link theorems (generated = model, all inputs)"
+    CHECKS[_pid]["note"] += " Translation tie trusts the translator's reading of clang's AST instead of a hand transcription (DESIGN.md 0.8)."
+for _pid in GATE:
+    CHECKS[_pid]["text"] += (" Lock-discipline gate: the sequential theorems are claimed for tables shared between cache threads, so the check also re-proves over the "
+                             "lock IR regenerated from the source that every access is guarded and that every read call and every single-record update is ONE critical "
+                             "section (record_writers_single_section).")
+
 
 def main():
     checks = []
